@@ -1027,6 +1027,32 @@ pub fn run(scn: &ObjScenario, record: bool) -> RunResult {
         }
     }
 
+    // --- G: a premature end-of-file answer followed by more data ------------------------
+    // `Ok(0)` once, then data again (a file still being appended to, a pipe whose writer
+    // paused). Stopping there is right, carrying on is right, an error is fine; a mesh
+    // that is neither the prefix's nor the whole file's is not.
+    if eof_resumed > 0 && rd_err == 0 && eof_stop == 0 {
+        let at = core.borrow().resumed_at.unwrap_or(0);
+        if let (RefObj::Accept { .. }, Some(sout), Some(whole)) = (&refv, &streamed_out, &base_out) {
+            let prefix = catch(|| parse_obj(bytes[..at].iter().copied())).ok().map(|r| observe(r, "", &mut RunResult::default()));
+            let ok = matches!(sout, ObjOut::Err(_)) || diff(sout, whole) == "equal" || prefix.as_ref().map_or(false, |p| diff(sout, p) == "equal");
+            rr.oracle("G", ok);
+            if !ok {
+                rr.violate(Violation::new(
+                    "G",
+                    "hybrid-mesh-after-premature-eof",
+                    format!(
+                        "the source answered Ok(0) once after {at} of {} bytes of a well-formed file and then went on; read_obj answered {}, which is neither what the first {at} bytes say ({}) nor what the whole file says ({})",
+                        bytes.len(),
+                        sout.brief(),
+                        prefix.as_ref().map_or("a panic".into(), |p| p.brief()),
+                        whole.brief()
+                    ),
+                ));
+            }
+        }
+    }
+
     // --- F: a failing stream may cost the result, never falsify it -----------------------
     if rd_err > 0 {
         if let (RefObj::Accept { verts, tris, .. }, Some(sout)) = (&refv, &streamed_out) {
